@@ -116,7 +116,9 @@ func (k Keeper) AllocateTokensToStakers(ctx sdk.Context, operatorAddress sdk.Acc
 	logger.Info("AllocateTokensToStakers", "operatorAddress", operatorAddress.String())
 	avsList, err := k.StakingKeeper.GetOptedInAVSForOperator(ctx, operatorAddress.String())
 	if err != nil {
+		// nobody can be paid: the whole amount goes to the community pool, so that it stays booked
 		logger.Debug("avs address lists not found; skipping")
+		feePool.CommunityPool = feePool.CommunityPool.Add(rewardToAllStakers...)
 		return
 	}
 	stakersPowerMap, curTotalStakersPowers := make(map[string]math.LegacyDec), math.LegacyNewDec(0)
@@ -158,7 +160,9 @@ func (k Keeper) AllocateTokensToStakers(ctx sdk.Context, operatorAddress sdk.Acc
 			remaining = remaining.Sub(rewardToSingleStaker)
 		}
 	}
-	feePool.CommunityPool = feePool.CommunityPool.Add(rewardToAllStakers...)
+	// only what has not been paid to the stakers (truncation dust, or everything if nobody has
+	// power) goes to the community pool
+	feePool.CommunityPool = feePool.CommunityPool.Add(remaining...)
 	logger.Info("allocate tokens to stakers successfully", "allocated amount is", rewardToAllStakers.String())
 }
 
